@@ -67,16 +67,26 @@ func TestVerif_C07(t *testing.T) {
 		}
 	}
 	rec.Count("batches", int64(len(jobs)))
+	world := filepath.Join(rec.Work, "c07world")
+	if err := buildC07World(world, rec.Seed); err != nil {
+		rec.Violation("harness/world", err.Error(), nil)
+		return
+	}
+	// children are sequential programs; without this ten of them fight over the cores
+	c07Env = []string{"C07_WORLD=" + world, "GOMAXPROCS=2"}
 	watchdog := time.Duration(rec.N(300, 1500)) * time.Second
 
 	ch := make(chan job)
 	var wg sync.WaitGroup
-	for w := 0; w < 10; w++ {
+	for w := 0; w < 12; w++ {
 		wg.Add(1)
 		go func() {
 			defer wg.Done()
 			for j := range ch {
+				t0 := time.Now()
 				c07RunBatch(rec, j.mode, j.stream, j.count, watchdog)
+				// evidence only, never an oracle
+				rec.Note("batch_wall_s", fmt.Sprintf("%s/%d: %.1f", j.mode, j.stream, time.Since(t0).Seconds()))
 			}
 		}()
 	}
@@ -86,6 +96,8 @@ func TestVerif_C07(t *testing.T) {
 	close(ch)
 	wg.Wait()
 }
+
+var c07Env []string
 
 var c07EntryRe = regexp.MustCompile(`qlang\.c07E_(\w+)`)
 
@@ -98,7 +110,7 @@ func c07RunBatch(rec *kit.Rec, mode string, stream, count int, watchdog time.Dur
 			rec.Count("inputs_not_run", int64(count-start))
 			return
 		}
-		res := rec.RunChild("TestVerif_C07", mode, fmt.Sprintf("%d:%d:%d", stream, start, count), nil, watchdog)
+		res := rec.RunChild("TestVerif_C07", mode, fmt.Sprintf("%d:%d:%d", stream, start, count), c07Env, watchdog)
 		if res.TimedOut {
 			rec.Count("child_watchdog_fired", 1)
 			rec.Note("inconclusive", fmt.Sprintf("%s stream %d: watchdog fired, last case %s", mode, stream, clip(res.LastCase, 300)))
@@ -168,29 +180,33 @@ func c07Corpus(seed uint64) *kit.Corpus {
 	return c
 }
 
-func newC07World(work string, seed uint64) (*c07World, error) {
-	w := &c07World{dir: filepath.Join(work, "shards"), corp: c07Corpus(seed)}
-	cdir := filepath.Join(work, "compound")
-	for _, d := range []string{w.dir, cdir} {
+// buildC07World writes the three simple shards and the compound shard under root.
+// The parent does this once; children only open the files.
+func buildC07World(root string, seed uint64) error {
+	corp := c07Corpus(seed)
+	sdir, cdir := filepath.Join(root, "shards"), filepath.Join(root, "compound")
+	for _, d := range []string{sdir, cdir} {
 		if err := os.MkdirAll(d, 0o755); err != nil {
-			return nil, err
+			return err
 		}
 	}
-	var first string
-	for i, r := range w.corp.Repos {
-		p, err := ix.BuildSimple(w.dir, r)
-		if err != nil {
-			return nil, err
-		}
-		if i == 0 {
-			first = p
+	for _, r := range corp.Repos {
+		if _, err := ix.BuildSimple(sdir, r); err != nil {
+			return err
 		}
 	}
-	cp, err := ix.BuildCompound(cdir, w.corp.Repos)
-	if err != nil {
-		return nil, err
+	_, err := ix.BuildCompound(cdir, corp.Repos)
+	return err
+}
+
+func openC07World(root string, seed uint64) (*c07World, error) {
+	w := &c07World{dir: filepath.Join(root, "shards"), corp: c07Corpus(seed)}
+	first, _ := filepath.Glob(filepath.Join(w.dir, "*.zoekt"))
+	comp, _ := filepath.Glob(filepath.Join(root, "compound", "*.zoekt"))
+	if len(first) != 3 || len(comp) != 1 {
+		return nil, fmt.Errorf("world at %s: %d simple and %d compound shards", root, len(first), len(comp))
 	}
-	for _, p := range []string{first, cp} {
+	for _, p := range []string{first[0], comp[0]} {
 		s, err := ix.Open(p)
 		if err != nil {
 			return nil, err
@@ -216,7 +232,15 @@ func c07Child(rec *kit.Rec, mode, arg string) {
 		rec.Violation("harness/child arg", arg, nil)
 		return
 	}
-	w, err := newC07World(rec.Work, rec.Seed)
+	root := os.Getenv("C07_WORLD")
+	if root == "" { // stand-alone replay of a child
+		root = filepath.Join(rec.Work, "world")
+		if err := buildC07World(root, rec.Seed); err != nil {
+			rec.Violation("harness/world", err.Error(), nil)
+			return
+		}
+	}
+	w, err := openC07World(root, rec.Seed)
 	if err != nil {
 		rec.Violation("harness/world", err.Error(), nil)
 		return
@@ -345,7 +369,6 @@ func c07OneString(rec *kit.Rec, w *c07World, class, s string, i int) (parseMallo
 		return
 	}
 	rec.Count("parsed", 1)
-	kit.LogCase(map[string]any{"i": i, "class": class, "stage": "use", "q": quoted})
 	c07Use(run, w, q, i)
 	return
 }
